@@ -201,7 +201,7 @@ func ReplayEdges(run *vf.Run, o MCOpts) {
 							comp = c
 						}
 					}
-					if comp == "" && !refusedSomewhere(g.first) {
+					if comp == "" && !refusedSomewhere(g.first) && !strings.HasPrefix(g.first.Cfg.D.K, "ctlRe") {
 						if !CheckBytes(obs.ReqBytes) {
 							comp = "request-reader-content"
 						} else if !CheckBytes(obs.RespBytes) {
